@@ -112,7 +112,8 @@ WrongOf(t) == CASE t = "dateTime" -> {"text", "badfields", "trailing", "dateonly
                 [] t = "nonNegativeInteger" -> {"text", "negative"} \cup Lenient
                 [] t = "positiveInteger" -> {"text", "zero"} \cup Lenient
                 [] t \in {"unsignedShort", "unsignedByte", "unsignedInt", "unsignedLong"} -> {"text", "negative", "toobig"} \cup Lenient  \* toobig: 2^bits
-                [] t = "duration" -> {"text"}
+                \* "P" / "-P": the designator with no component after it
+                [] t = "duration" -> {"text", "designator_only", "designator_only_neg"}
                 [] OTHER -> {}
 TextType(c) == LET b == Table[c].text_base IN
                IF b = "datetime" THEN "dateTime" ELSE b
